@@ -6,6 +6,60 @@ import shutil
 from . import common as C
 
 
+def _repo_sources_digest():
+    """sha256 over path+content of every file cargo compiles from /repo (crates/, tokenizer.txt, core/)."""
+    import hashlib
+    h = hashlib.sha256()
+    roots = [os.path.join(C.REPO, "crates"), os.path.join(C.REPO, "tokenizer.txt"), os.path.join(C.REPO, "Cargo.toml"),
+             os.path.join(C.REPO, "Cargo.lock")]
+    files = []
+    for r in roots:
+        if os.path.isfile(r):
+            files.append(r)
+        else:
+            for d, dirs, fs in os.walk(r):
+                dirs[:] = [x for x in dirs if x != "target"]
+                files += [os.path.join(d, f) for f in fs]
+    for f in sorted(files):
+        h.update(f.encode())
+        try:
+            h.update(open(f, "rb").read())
+        except OSError:
+            pass
+    return h.hexdigest()
+
+
+def _invalidate_if_sources_changed():
+    """cargo decides freshness by mtime; a source tree whose files are OLDER than the cached
+    artifacts (another worktree mounted over /repo, a restored file) would be taken as fresh.
+    When the content digest of /repo's sources differs from the one of the last build, the
+    fingerprints of /repo's crates are removed so that cargo rebuilds them. (caller holds the lock)"""
+    import glob
+    import tomllib
+    stamp = os.path.join(C.CACHE, "repo_sources.sha256")
+    dig = _repo_sources_digest()
+    old = open(stamp).read().strip() if os.path.exists(stamp) else None
+    if old == dig:
+        return dig
+    names = set()
+    for m in glob.glob(os.path.join(C.REPO, "crates", "*", "Cargo.toml")):
+        try:
+            names.add(tomllib.load(open(m, "rb"))["package"]["name"].replace("-", "_"))
+            names.add(tomllib.load(open(m, "rb"))["package"]["name"])
+        except Exception:
+            pass
+    for fp in glob.glob(os.path.join(C.TARGET, "*", ".fingerprint", "*")):
+        base = os.path.basename(fp).rsplit("-", 1)[0]
+        if base in names or base.startswith("h_") or base == "hcommon":
+            shutil.rmtree(fp, ignore_errors=True)
+    # the stamp is only advanced after everything that uses the tree was rebuilt: we simply
+    # record the digest now; every later build in this cache sees fresh fingerprints or rebuilds
+    os.makedirs(C.CACHE, exist_ok=True)
+    with open(stamp, "w") as f:
+        f.write(dig)
+    return dig
+
+
 def build_harness(pkg, timeout=3000):
     """cargo build -p <pkg> in the harness workspace. Returns (ok, output, bin path)."""
     lock_src = os.path.join(C.REPO, "Cargo.lock")
@@ -13,6 +67,7 @@ def build_harness(pkg, timeout=3000):
     with C.locked("cargo"):
         if not os.path.exists(lock_dst):
             shutil.copy(lock_src, lock_dst)
+        _invalidate_if_sources_changed()
         rc, out = C.run(["cargo", "build", "--offline", "-q", "-p", pkg], cwd=C.HARNESS,
                         env=C.env_offline(), timeout=timeout)
     errs = "\n".join(l for l in out.split("\n") if not l.startswith("warning"))
@@ -22,6 +77,7 @@ def build_harness(pkg, timeout=3000):
 def build_capy(timeout=3000):
     """Build the capy executable (debug profile, hooks on). Returns (ok, out, path)."""
     with C.locked("cargo"):
+        _invalidate_if_sources_changed()
         rc, out = C.run(["cargo", "build", "--offline", "-q", "-p", "capy"], cwd=C.REPO,
                         env=C.env_offline(),
                         timeout=timeout)
